@@ -30,6 +30,20 @@ CHECKS = {
              'failure); soundness of visited-state merging (canonical sampler+client state), cross-checked against '
              'unpruned trees. Real worker processes only in the thorough free-running cross-check.',
         design_ref='4 C04'),
+    'C06': dict(
+        level='fault_enumeration',
+        technique='BFS over all store operation histories up to depth d on the real NpyStore/ArrayPool with a '
+                  'lock-step list reference, plus enumeration of a process kill after every raw write/truncate/memmap '
+                  'store of every history (crash image = replay of the intercepted raw-op log prefix)',
+        text='Every operation sequence up to depth 4 (quick) / 6 (thorough) per store kind, dtype, row shape and batch '
+             'size runs on the real store; the end state of every history is compared with the in-memory sequence and '
+             'with numpy.load after flush/close; for every raw file operation a crash image is built and must load, be '
+             'batch aligned, equal a logical content between the last completed flush and the kill, and reopen to the '
+             'same batches. Images are validated against files left by really killed child processes.',
+        note='Trusted: kill model (atomic raw write/ftruncate/memmap batch store, user-space buffers lost, dirty shared '
+             'pages survive; no power loss); interception of elfi.store.open and NpyArray.__setitem__ (a history with no '
+             'logged raw operation aborts the check).',
+        design_ref='4 C06'),
     'C15': dict(
         level='model_checking',
         technique='explicit-state BFS to closure over the real get_sub_seed cache states (all index requests in every '
